@@ -15,30 +15,33 @@ CStr(k) == k \o <<0>>
 Idx(i)  == Decimal(MagOf(i))       \* array element names "0", "1", ...
 LenStr(s) == LE(RLen(s) + 1, 4) \o s \o <<0>>
 
-RECURSIVE Doc(_), Elem(_, _)
-Elem(name, v) ==
-    LET n == CStr(name) IN
-    CASE v.t = "f64"  -> {<<1>> \o n \o Rev(v.bits)}
-      [] v.t = "str"  -> {<<2>> \o n \o LenStr(v.s)}
-      [] v.t = "map"  -> {<<3>> \o n \o d : d \in Doc(v)}
-      [] v.t = "arr"  -> {<<4>> \o n \o d : d \in Doc(Map([i \in 1..Len(v.a) |-> Idx(i - 1)], v.a))}
-      [] v.t = "bool" -> {<<8>> \o n \o <<IF v.b THEN 1 ELSE 0>>}
-      [] v.t = "null" -> {<<10>> \o n}
-      [] v.t = "int"  -> (IF SFits(v, 4) THEN {<<16>> \o n \o Rev(SEnc(v, 4))} ELSE {})
-                    \cup (IF SFits(v, 8) THEN {<<18>> \o n \o Rev(SEnc(v, 8))} ELSE {})
+\* an element is type byte, name, payload; Payloads(v) is the set of [ty, pl] alternatives of a value
+DocOf(body) == LE(RLen(body) + 5, 4) \o body \o <<0>>
+ElemOf(name, p) == <<p.ty>> \o CStr(name) \o p.pl
+P(ty, pl) == [ty |-> ty, pl |-> pl]
+RECURSIVE Doc(_), Payloads(_)
+Payloads(v) ==
+    CASE v.t = "f64"  -> {P(1, Rev(v.bits))}
+      [] v.t = "str"  -> {P(2, LenStr(v.s))}
+      [] v.t = "map"  -> {P(3, d) : d \in Doc(v)}
+      [] v.t = "arr"  -> {P(4, d) : d \in Doc(Map([i \in 1..Len(v.a) |-> Idx(i - 1)], v.a))}
+      [] v.t = "bool" -> {P(8, <<IF v.b THEN 1 ELSE 0>>)}
+      [] v.t = "null" -> {P(10, <<>>)}
+      [] v.t = "int"  -> (IF SFits(v, 4) THEN {P(16, Rev(SEnc(v, 4)))} ELSE {})
+                    \cup (IF SFits(v, 8) THEN {P(18, Rev(SEnc(v, 8)))} ELSE {})
       [] v.t = "bson" ->
-          (CASE v.ty = "datetime"  -> {<<9>> \o n \o Rev(SEnc(v.i, 8))}
-             [] v.ty = "timestamp" -> {<<17>> \o n \o Rev(UExt(v.i.mag, 8))}
-             [] v.ty = "oid"       -> {<<7>> \o n \o v.x}
-             [] v.ty = "binary"    -> {<<5>> \o n \o LE(RLen(v.x), 4) \o <<v.sub>> \o v.x}
-             [] v.ty = "regex"     -> {<<11>> \o n \o CStr(v.s) \o CStr(v.o)}
-             [] v.ty = "js"        -> {<<13>> \o n \o LenStr(v.s)}
-             [] v.ty = "dec128"    -> {<<19>> \o n \o v.x}
-             [] v.ty = "undef"     -> {<<6>> \o n}
-             [] v.ty = "minkey"    -> {<<255>> \o n}
-             [] v.ty = "maxkey"    -> {<<127>> \o n})
-Doc(m) == {LE(RLen(body) + 5, 4) \o body \o <<0>> :
-              body \in CatAll([i \in 1..Len(m.k) |-> Elem(m.k[i], m.v[i])])}
+          (CASE v.ty = "datetime"  -> {P(9, Rev(SEnc(v.i, 8)))}
+             [] v.ty = "timestamp" -> {P(17, Rev(UExt(v.i.mag, 8)))}
+             [] v.ty = "oid"       -> {P(7, v.x)}
+             [] v.ty = "binary"    -> {P(5, LE(RLen(v.x), 4) \o <<v.sub>> \o v.x)}
+             [] v.ty = "regex"     -> {P(11, CStr(v.s) \o CStr(v.o))}
+             [] v.ty = "js"        -> {P(13, LenStr(v.s))}
+             [] v.ty = "dec128"    -> {P(19, v.x)}
+             [] v.ty = "undef"     -> {P(6, <<>>)}
+             [] v.ty = "minkey"    -> {P(255, <<>>)}
+             [] v.ty = "maxkey"    -> {P(127, <<>>)})
+Elem(name, v) == {ElemOf(name, p) : p \in Payloads(v)}
+Doc(m) == {DocOf(body) : body \in CatAll([i \in 1..Len(m.k) |-> Elem(m.k[i], m.v[i])])}
 
 Enc(v) == IF v.t = "map" THEN Doc(v) ELSE {}
 
